@@ -84,12 +84,16 @@ def run_impl(case, jit=False):
             if jit:
                 stat = tuple(i for i, x in enumerate((f, g)) if isinstance(x, bool))
                 r = jax.jit(fn, static_argnums=stat)(f, g)
+                if len(stat) == 2:
+                    r = bool(r)      # two concrete flags give a Python bool; jit returns every output as an array
             else:
                 r = fn(f, g)
             return from_flag(r)
         if k == "not":
             f = to_flag(case[1])
             r = (jax.jit(FlagOp.not_, static_argnums=(0,) if isinstance(f, bool) else ())(f)) if jit else FlagOp.not_(f)
+            if jit and isinstance(f, bool):
+                r = bool(r)          # (as above)
             return from_flag(r)
         if k == "where":
             f = to_flag(case[1])
